@@ -1556,7 +1556,7 @@ func AggrFunExpr(query *Query, current Map, expr sqlparser.AggrFunc, opts ...Exp
 		if err != nil {
 			return nil, err
 		}
-		return result, nil
+		return AsNumber(result), nil
 	}
 	key := "aggr." + sqlparser.String(expr)
 	rs, ok := query.singletonExecutions[key]
@@ -1570,10 +1570,20 @@ func AggrFunExpr(query *Query, current Map, expr sqlparser.AggrFunc, opts ...Exp
 		if err != nil {
 			return nil, err
 		}
+		result = AsNumber(result)
 		query.singletonExecutions[key] = result
 		return result, nil
 	}
 	return rs, nil
+}
+
+// AsNumber turns the int that COUNT returns into the float64 every other
+// number in the engine is, so that the result can be used in arithmetic
+func AsNumber(value any) any {
+	if n, ok := value.(int); ok {
+		return float64(n)
+	}
+	return value
 }
 
 func FuncArgReader(query *Query, current Map, selectExprs []sqlparser.Expr, opts ...ExprOption) ([]any, error) {
